@@ -2214,7 +2214,7 @@ impl CharacterDataMut for XmlText {
         if self.length() < offset {
             Err(error::DomException::IndexSizeErr)?
         } else {
-            self.data.borrow_mut().delete(offset, count);
+            self.data.borrow_mut().replace(offset, count, "")?;
             Ok(())
         }
     }
@@ -2378,7 +2378,7 @@ impl CharacterDataMut for XmlComment {
         if self.length() < offset {
             Err(error::DomException::IndexSizeErr)?
         } else {
-            self.data.borrow_mut().delete(offset, count);
+            self.data.borrow_mut().replace(offset, count, "")?;
             Ok(())
         }
     }
@@ -2571,7 +2571,7 @@ impl CharacterDataMut for XmlCDataSection {
         if self.length() < offset {
             Err(error::DomException::IndexSizeErr)?
         } else {
-            self.data.borrow_mut().delete(offset, count);
+            self.data.borrow_mut().replace(offset, count, "")?;
             Ok(())
         }
     }
